@@ -172,6 +172,21 @@ namespace vsp
             r.spl->set_slope_exp(sc.n);
             what += " set_slope_exp(" + vg::fmt(sc.n) + ")";
         }
+        if (s.chance(30))
+        {
+            // a refused call (erodibility array of the wrong shape) leaves the eroder as it was
+            bool threw = false;
+            try
+            {
+                r.spl->set_k_array_bad_shape();
+            }
+            catch (const std::exception&)
+            {
+                threw = true;
+            }
+            c.expect(threw, "bad-k-accepted", "set_k_coef with an array of another shape was accepted");
+            what += " set_k_coef(wrong shape: refused)";
+        }
         r.kn = sc.k_is_array ? sc.karr : std::vector<double>(n, sc.k);
         if (c.verbose)  // before the call: visible even if it never returns
             std::cout << "NEXT" << what << " erode(z=" << vg::describe_field(r.z, 0) << ")" << std::endl;
